@@ -113,6 +113,7 @@ inductive Action where
   | eof
   | readFault (k : Nat)
   | writeFault (k : Nat)
+  | dropEvents                   -- the application drops its `ConnectionEvents` receiver (allowed)
 deriving Repr, DecidableEq
 
 /-- what the observer sees after one action -/
@@ -134,6 +135,7 @@ structure World where
   callers : List Caller := []
   cancelled : List Nat := []
   mainAlive : Bool := true
+  eventsAlive : Bool := true      -- the `ConnectionEvents` receiver still exists (sends to a dropped one are ignored)
   connected : Bool := false
   sched : Sched := {}
   seg : Segment := {}
@@ -232,9 +234,9 @@ def absorbObs (w : World) : World :=
     | o :: os =>
       match o with
       | .wrote b _ => go { seg with wrote := seg.wrote ++ b } keep os
-      | .event n => go { seg with events := seg.events ++ [n] } keep os
-      | .closing e => go { seg with closing := seg.closing ++ [e] } keep os
-      | .eventsEnd => go { seg with eventsEnd := true } keep os
+      | .event n => go (if w.eventsAlive then { seg with events := seg.events ++ [n] } else seg) keep os
+      | .closing e => go (if w.eventsAlive then { seg with closing := seg.closing ++ [e] } else seg) keep os
+      | .eventsEnd => go (if w.eventsAlive then { seg with eventsEnd := true } else seg) keep os
       | .transportDropped => go { seg with dropped := true } keep os
       | .connected c => go { seg with connect := some c } keep os
       | .resolved id r => go seg (keep ++ [.resolved id r]) os
@@ -327,6 +329,7 @@ def apply (w : World) : Action → World
   | .eof => { w with st := { w.st with eof := true } }
   | .readFault k => { w with st := { w.st with rerr := some k, avail := [] } }
   | .writeFault k => { w with st := { w.st with werr := some k } }
+  | .dropEvents => { w with eventsAlive := false }
 
 /-- one action: apply, run to quiescence, cut the segment -/
 def runAction (w : World) (a : Action) : World × Segment :=
